@@ -28,6 +28,13 @@ for hist in (0, 1, 2):
             if local in (1, 2):
                 _rec(hist, last, local, 1, ("thorough",))
 
+for hist in (1, 2):
+    for local in (0, 2):
+        OBLIGATIONS.append(dict(
+            name="C13.c restart: the Agglayer reports %d settled certificate(s) and a latest non-settled one (open or in error) at or below the settled height; %s: refused, database unchanged" % (
+                hist, LOCALN[local] if local == 0 else "database holds the settled certificates"),
+            harness=F + "ZZVerif_C13_Inconsistent", params={"HIST": hist, "LOCAL": local}, tiers=("quick", "thorough") if hist == 1 or local == 0 else ("thorough",),
+            reach=["refused"], time_limit_s=1500, bounds="every height of the stale certificate up to the settled height, every status, all ids and exit roots"))
 FAULTN = {0: "no fault", 1: "the insert into certificate_info fails", 2: "the insert into certificate_info_history fails", 3: "the delete from certificate_info fails"}
 for keep in (0, 1):
     for fault in (0, 1, 2, 3):
@@ -45,4 +52,4 @@ ASSUMPTIONS = [
     "storage faults are failing INSERT/DELETE statements (SQLite RAISE(ABORT) triggers natively, error returns in the SQL model); SQLite's atomic commit is trusted",
 ]
 OUTSIDE = ("the send loop itself (C02: not applicable); a retry submitted but not stored (local in-error record vs. a new Agglayer certificate at the same height): "
-           "the code refuses (ids differ), which the property allows; Agglayer answers that are themselves inconsistent; histories longer than 3 certificates")
+           "the code refuses (ids differ), which the property allows; histories longer than 3 certificates")
